@@ -106,7 +106,8 @@ func checkC12(c *Ctx) {
 			continue
 		}
 		guardOf[g.Field] = g.Guard
-		ownMutex := g.Guard != "" && strings.HasPrefix(g.Guard, g.Owner+".")
+		// the registry's own mutex — or, for a lock-free container type, the mutex of the struct that holds it
+		ownMutex := g.Guard != "" && (strings.HasPrefix(g.Guard, g.Owner+".") || holdsMemberOf(c, lockOwnerNamed(c, g.Guard), g.OwnerT))
 		if !ownMutex {
 			c.R.Violate("R-guarded-by", g.Field+" (no guard)", c.Pos(g.Accesses[0].Pos),
 				sprintf("registry field %s is written after construction but no access holds a mutex of %s (inferred guard %q)", g.Field, g.Owner, g.Guard))
@@ -182,10 +183,7 @@ func checkC12(c *Ctx) {
 		mu := a.Instr.(*ssa.MapUpdate)
 		v := ir.Unwrap(mu.Value)
 		_, isSig := v.Type().Underlying().(*types.Signature)
-		fresh := false
-		if al, ok := v.(*ssa.Alloc); ok && al.Heap {
-			fresh = true
-		}
+		fresh := freshRecord(c, a.Fn, v, 0)
 		construct := a.Field + " store in " + fname(a.Fn)
 		c.R.Check(fresh || isSig, "R-atomic-replace", construct, c.Pos(a.Pos),
 			"value stored is a freshly allocated record / a function value",
@@ -695,6 +693,81 @@ func holdsEntries(t types.Type) bool {
 	switch elem.Underlying().(type) {
 	case *types.Struct, *types.Interface:
 		return true
+	}
+	return false
+}
+
+// freshRecord: v is a record allocated for this store — here, or by every library caller that hands it in.
+func freshRecord(c *Ctx, fn *ssa.Function, v ssa.Value, d int) bool {
+	v = ir.Unwrap(v)
+	if al, ok := v.(*ssa.Alloc); ok && al.Heap {
+		return true
+	}
+	p, ok := v.(*ssa.Parameter)
+	if !ok || d > 2 {
+		return false
+	}
+	idx := -1
+	for i, q := range fn.Params {
+		if q == p {
+			idx = i
+		}
+	}
+	n := 0
+	for _, e := range ir.Callers(c.G, fn) {
+		if e.Site == nil || !c.P.IsLib(e.Caller.Func) {
+			continue
+		}
+		args := e.Site.Common().Args
+		off := 0
+		if e.Site.Common().IsInvoke() {
+			off = 1
+		}
+		if idx-off < 0 || idx-off >= len(args) || !freshRecord(c, e.Caller.Func, args[idx-off], d+1) {
+			return false
+		}
+		n++
+	}
+	return n > 0
+}
+
+// lockOwnerNamed: the named struct type a lock key "T.mu" belongs to.
+func lockOwnerNamed(c *Ctx, lockKey string) *types.Named {
+	i := strings.LastIndex(lockKey, ".")
+	if i < 0 {
+		return nil
+	}
+	owner := lockKey[:i]
+	for _, pk := range c.P.Pkgs {
+		sc := pk.Types.Scope()
+		for _, name := range sc.Names() {
+			if tn, ok := sc.Lookup(name).(*types.TypeName); ok {
+				if n, ok := tn.Type().(*types.Named); ok && ir.TypeKey(n) == owner {
+					return n
+				}
+			}
+		}
+	}
+	return nil
+}
+
+// holdsMemberOf: struct type T has a member of type M or *M.
+func holdsMemberOf(c *Ctx, T, M *types.Named) bool {
+	if T == nil || M == nil {
+		return false
+	}
+	st, ok := T.Underlying().(*types.Struct)
+	if !ok {
+		return false
+	}
+	for i := 0; i < st.NumFields(); i++ {
+		ft := st.Field(i).Type()
+		if p, ok := ft.(*types.Pointer); ok {
+			ft = p.Elem()
+		}
+		if types.Identical(ft, M) {
+			return true
+		}
 	}
 	return false
 }
